@@ -17,6 +17,7 @@ Only matrices with s >= norm_eps are asserted (others counted in ``dropped``).
 from __future__ import annotations
 
 import itertools
+import os
 
 import numpy as np
 
@@ -125,6 +126,9 @@ def gen_cases(tier, seed):
                     continue
                 for lo, hi in _blocks(8, 4):
                     cases.append(dict(src="dense", m=m, n=n, lo=lo, hi=hi, fam=fam, mode=mode, seed=seed))
+    only = os.environ.get("VERIF_C04_ONLY")  # development aid (mutant triage): restrict to some families; never set in real runs
+    if only:
+        cases = [c for c in cases if c["fam"] in only.split(",")]
     return cases
 
 
